@@ -2,6 +2,7 @@
 random structure / operation generators shared by C04-C13."""
 import contextlib
 import io
+import json
 import numpy as np
 
 from common import gal, N, Some, Raw
@@ -129,7 +130,7 @@ def rand_struct(rng, n, tag, coeffs=True, labels_pool=("x", "y"), cell=None, max
 
 def gal_op(op, I):
     k = op[0]
-    if k == "extend":
+    if k in ("extend", "extend_shared"):
         return "(OExtend %s %s)" % (gal_atoms(op[1], I), gal([(N(a), N(b)) for a, b in op[2]]))
     if k == "extend_offs":
         return "(OExtendOffs %s (mk_offs %s) %s)" % (gal_atoms(op[1], I), " ".join(gal(N(x)) for x in op[2]),
@@ -155,6 +156,13 @@ def apply_op(A, op):
     with quiet(), contextlib.redirect_stdout(io.StringIO()):
         if k == "extend":
             A.extend(to_atoms(op[1]), structure_index_map=dict(op[2]))
+        elif k == "extend_shared":
+            # the caller keeps ONE identity-map object (and one fragment object) and passes it to every such step of the history
+            key = json.dumps([op[1], op[2]], sort_keys=True, default=list)
+            if key not in _SHARED:
+                _SHARED[key] = (to_atoms(op[1]), dict(op[2]))
+            O, d = _SHARED[key]
+            A.extend(O, structure_index_map=d)
         elif k == "extend_offs":
             A.extend(to_atoms(op[1]), offsets=tuple(op[2]), structure_index_map=dict(op[3]))
         elif k == "extend_twice":
@@ -177,11 +185,15 @@ def apply_op(A, op):
     return A
 
 
+_SHARED = {}
+
+
 def run_history(init, ops):
     """run ops on the implementation; returns (list of dumped states or ('error', text), per-step error flag)"""
     A = to_atoms(init)
     st0 = dump(A)
     out = []
+    _SHARED.clear()
     for op in ops:
         try:
             A = apply_op(A, op)
